@@ -135,8 +135,9 @@ def random_cases(ctx):
         case = {'mod': mod, 'initdef': initdef, 'seq': seq}
         if rng.random() < 0.3:
             case['stored'] = num()
-        if rng.random() < 0.25:
-            # insert 'put' without its value somewhere
+        for _ in range(rng.choice([0, 0, 0, 1, 2, 3])):
+            # insert 'put' without its value somewhere (also several times: every one of them
+            # is just reported to the caller)
             case['seq'].insert(rng.randrange(len(seq) + 1),
                                [rng.choice(['put_novalue', 'cond_put_novalue']), None])
         if rng.random() < 0.2:
@@ -284,6 +285,11 @@ def check_one(case, blk, sim, ctx):
                 # for inc/dec/reset these items are just ignored
                 ctx.count('events_with_foreign_value_item')
                 ret = ev.send(57, previous=3, trigger='output', **kw)
+            elif arg is not None and k % 5 == 3:
+                # no item name is reserved: a payload forwarded as it came may contain items
+                # named like parameters of the delivery path
+                ctx.count('events_with_parameter_like_items')
+                ret = ev.send(amount=arg, etype='x', data={'k': 1}, dest='counter', name='n', **kw)
             elif arg is None:
                 ret = ev.send(**kw)
             else:
